@@ -4,7 +4,8 @@
    parameter or forwarded name makes this file fail to compile. *)
 From Coq Require Import List String ZArith Bool.
 Import ListNotations.
-Require Import OV.Registry.OpsetMethod OV.Registry.OpsetMethodProofs OV.Registry.OpsetEmit OV.Registry.OpsetEmitProofs.
+Require Import OV.Registry.OpsetMethod OV.Registry.OpsetMethodProofs OV.Registry.OpsetEmit OV.Registry.OpsetEmitProofs
+               OV.Registry.OpsetChain OV.Registry.OpsetChainProofs.
 Require OV.Gen.OpsetMethods OV.Gen.OpsetSchemas.
 
 Definition gen_schemas := OV.Gen.OpsetSchemas.schemas.
@@ -15,8 +16,22 @@ Definition gen_classes := OV.Gen.OpsetMethods.classes.
 Definition gen_exempt_ops := OV.Gen.OpsetMethods.exempt_ops.
 Definition gen_exempt : schema -> bool := exempt_in gen_exempt_ops.
 
-Lemma gen_registry_ok : registry_ok gen_exempt gen_schemas gen_classes = true.
+(* the opsets the generator is told to leave out (regenerated from the documented `--exclude` of opgen/__main__.py) *)
+Definition gen_excluded : list ckey := OV.Gen.OpsetMethods.excluded_opsets.
+
+(* the installed onnx.defs is a well-formed registry for the generator: per-method preconditions, unique
+   (name, domain, since_version), versions >= 1, distinct class names, no gap below any generated class *)
+Lemma gen_reg_wf : reg_wfb gen_exempt gen_excluded gen_schemas = true.
 Proof. vm_compute. reflexivity. Qed.
+
+(* the checked-in classes -- names, base classes, (domain, version), method lists -- ARE the classes the model
+   generator emits from onnx.defs (decided by evaluation on the regenerated data) *)
+Lemma gen_classes_are_emitted : gen_classes = emit_classes gen_exempt gen_excluded gen_schemas.
+Proof. apply classes_eqb_eq. vm_compute. reflexivity. Qed.
+
+(* ... so the registry test on the 33 classes is a corollary of the generator theorem *)
+Lemma gen_registry_ok : registry_ok gen_exempt gen_schemas gen_classes = true.
+Proof. rewrite gen_classes_are_emitted. exact (emitted_registry_ok _ _ _ gen_reg_wf). Qed.
 
 (* the generator: every onnx.defs schema passes the well-formedness test of the generator theorem, and the
    methods of every checked-in class are exactly what the model generator emits for that class *)
